@@ -202,7 +202,7 @@ func runC04(t *simrt.Tape, o Opts) Outcome {
 			}
 			h.seenLog = len(w.Store.Log)
 		}
-		n := 8 + t.Choose(50, "nops")
+		n := 8 + t.Choose(scale(o, 50, 150), "nops")
 		for i := 0; i < n && len(w.Viols) == 0; i++ {
 			h.step()
 		}
@@ -283,7 +283,7 @@ func runC05(t *simrt.Tape, o Opts) Outcome {
 				w.Violate("decrypt-failed", "decrypt-failed", "record r%d (IK@%d) no longer decrypts: %v", rec.N, rec.IKCreated, op.Err)
 			}
 		}
-		n := 8 + t.Choose(50, "nops")
+		n := 8 + t.Choose(scale(o, 50, 150), "nops")
 		for i := 0; i < n && len(w.Viols) == 0; i++ {
 			h.step()
 		}
